@@ -63,7 +63,19 @@ func newEvalCacheWithSize(size int) *evalCache {
 }
 
 func getPodOwnerKey(p *k8s.Pod) string {
-	return strings.Join([]string{p.Namespace, p.Owner.Name, p.Owner.Variant}, string(types.Separator))
+	return strings.Join([]string{p.Namespace, p.Owner.Name, p.Owner.Variant, namedPortsVariant(p)}, string(types.Separator))
+}
+
+// namedPortsVariant: a verdict on a policy's named port depends on the pod's own named container ports;
+// pods of the same owner and labels which declare different named ports must not share cached results
+func namedPortsVariant(p *k8s.Pod) string {
+	named := []string{}
+	for i := range p.Ports {
+		if p.Ports[i].Name != "" {
+			named = append(named, fmt.Sprintf("%s:%s:%d", p.Ports[i].Name, p.Ports[i].Protocol, p.Ports[i].ContainerPort))
+		}
+	}
+	return strings.Join(named, ",")
 }
 
 // TODO: currently supporting only connections between two pods with owners for caching
